@@ -30,7 +30,57 @@ def dims_summary(it, args, kwargs, node, fr):
     return d
 
 
+def _iterrows_labels_as_positions(ctx, q, m, fn):
+    """`for i, row in T.iterrows(): ... keep.append(i)` followed by `<table>.iloc[keep]`: i is a row LABEL of T and is used as a POSITION; that is right only
+    when T carries the labels 0..n-1, i.e. is built from label-free values (arrays, `.values`) or renumbered -- a helper table built from columns of the
+    particle table carries the particle table's labels (a list sorted by score, a selection)"""
+    strip = lambda e: (isinstance(e, ast.Attribute) and e.attr == "values") or (isinstance(e, ast.Call) and isinstance(e.func, ast.Attribute) and e.func.attr in ("to_numpy", "tolist"))
+    for lp in [n for n in ast.walk(fn) if isinstance(n, ast.For)]:
+        it_ = lp.iter
+        if not (isinstance(it_, ast.Call) and isinstance(it_.func, ast.Attribute) and it_.func.attr == "iterrows" and isinstance(it_.func.value, ast.Name)
+                and isinstance(lp.target, ast.Tuple) and isinstance(lp.target.elts[0], ast.Name)):
+            continue
+        tab, lab = it_.func.value.id, lp.target.elts[0].id
+        kept = {c.func.value.id for c in ast.walk(lp) if isinstance(c, ast.Call) and isinstance(c.func, ast.Attribute) and c.func.attr == "append"
+                and isinstance(c.func.value, ast.Name) and c.args and isinstance(c.args[0], ast.Name) and c.args[0].id == lab}
+        positional_use = [s_ for s_ in ast.walk(fn) if isinstance(s_, ast.Subscript) and isinstance(s_.value, ast.Attribute) and s_.value.attr == "iloc"
+                          and any(isinstance(x, ast.Name) and x.id in kept for x in ast.walk(s_.slice))]
+        if not positional_use:
+            continue
+        ctx.count(1, {"labels of": tab, "used as positions in": norm_text(positional_use[0])[:60]})
+        ctors = [a for a in ast.walk(fn) if isinstance(a, ast.Assign) and any(isinstance(t, ast.Name) and t.id == tab for t in a.targets)]
+        if len(ctors) != 1 or not (isinstance(ctors[0].value, ast.Call) and (ctx.prog.resolve(m, ctors[0].value.func) or "") == "pandas.DataFrame"):
+            raise Unsupported(f"{q}: how the table `{tab}` walked by iterrows() is built is not recognised (are its labels 0..n-1?)", lp)
+        c = ctors[0].value
+        if any(k.arg == "index" for k in c.keywords):
+            raise Unsupported(f"{q}: `{tab}` is built with an explicit index", c)
+        vals = list(c.args[0].values) if c.args and isinstance(c.args[0], ast.Dict) else None
+        if vals is None:
+            raise Unsupported(f"{q}: data of `{tab}` not recognised", c)
+        for v in vals:
+            labelled = [x for x in ast.walk(v) if isinstance(x, ast.Subscript) and isinstance(x.value, ast.Attribute) and x.value.attr == "df"
+                        and not any(strip(p_) and any(y is x for y in ast.walk(p_)) for p_ in ast.walk(v))]
+            if labelled:
+                ctx.finding(q, "labels of the helper table", f"the helper table `{tab}` is built from columns of the particle table ({norm_text(v)[:50]}) and carries that table's row "
+                            f"labels; iterrows() hands those labels to `{norm_text(positional_use[0])[:40]}`, which takes positions: for a list whose labels are not 0..n-1 in row "
+                            "order (sorted by score, a selection) the rows of other particles are kept", v, m)
+                return
+
+
 def o91(ctx):
+    q = M + "remove_out_of_bounds_particles"
+    m, fn = ctx.prog.func(q)
+    deferred = None
+    try:
+        _iterrows_labels_as_positions(ctx, q, m, fn)
+    except Unsupported as e_:  # the label rule has no verdict: the other rules of the obligation still speak; without any finding the obligation is undecided
+        deferred = e_
+    _o91_main(ctx)
+    if deferred is not None and not ctx.cur.findings:
+        raise deferred
+
+
+def _o91_main(ctx):
     q = M + "remove_out_of_bounds_particles"
     m, fn = ctx.prog.func(q)
     ctx.touched(q)
